@@ -243,3 +243,80 @@ def law_family(name):
         f'{s["findings"]} deviations')
     _family_cache[key] = r
     return r
+
+
+# --------------------------------------------------------------------------------------------
+# MC_Report families (C04, C07) and the calendar model (C07)
+
+def report_cfg(base=(2024, 3, 6), secs='SecSeqAB', dayset=1, buy=(0, 2), sell=(0, 1), maxcells=3, divdays=(1, 4, 5),
+               exempt_years=(2021, 2022, 2023, 2024, 2025), exempt_amt=5):
+    return f'''SPECIFICATION MCSpec
+CONSTANTS
+  SecSeq <- {secs}
+  N <- MC_N
+  DayNo <- MC_DayNo
+  Timings = {{"end"}}
+  DaySet = {dayset}
+  BuyQs = {set_(buy)}
+  SellQs = {set_(sell)}
+  QDen = 1
+  SplitKinds = {{}}
+  MaxSplits = 0
+  EventKinds = {{}}
+  MaxEvents = 0
+  DistGrid = 1
+  MaxCells = {maxcells}
+  Emit = TRUE
+  BaseY = {base[0]}
+  BaseM = {base[1]}
+  BaseD = {base[2]}
+  DivDays = {set_(divdays)}
+  ExemptYears = {set_(exempt_years)}
+  ExemptAmt = {exempt_amt}
+INVARIANTS
+  ClaimsWithinBought LegsSumToSold FailIffUncovered CostConservedAtEnd ReportIdentities EmitReport
+CHECK_DEADLOCK FALSE
+'''
+
+
+REPORT_FAMILIES = {
+    # day slots 0,1,2,30,31 from 6 March: slot 4 is 5 April, slot 5 is 6 April; 2023/24 contains 29 Feb 2024
+    'report_q': dict(base=(2024, 3, 6), maxcells=3),
+    'report_missing_q': dict(base=(2024, 3, 6), maxcells=2, exempt_years=(2021, 2022, 2023, 2025)),
+    'report_t': dict(base=(2023, 3, 6), maxcells=4),
+    'report_one_t': dict(base=(2020, 3, 6), secs='SecSeqA', buy=(0, 1, 2), sell=(0, 1, 2), maxcells=0,
+                         exempt_years=(2018, 2019, 2020, 2021)),
+}
+
+
+def report_family(name):
+    key = 'report_' + name
+    if key in _family_cache:
+        return _family_cache[key]
+    cfg = write_cfg('MC_Report_' + name, report_cfg(**REPORT_FAMILIES[name]))
+    m = tlc('MC_Report', cfg, workers=8, timeout=3000)
+    log(f'[tlc] MC_Report/{name}: {m["states"]} distinct states, {m["transitions"]} transitions, depth {m["depth"]}'
+        f' ({"cached" if m["cached"] else str(m["wall_s"]) + "s"})')
+    wd = workdir('report_' + name)
+    out = os.path.join(wd, 'findings.ndjson')
+    s = harness('replay_report', ['--in', m['out'], '--out', out])
+    r = {'name': key, 'tlc': m, 'summary': s, 'findings': read_ndjson(out), 'obs': None}
+    log(f'[replay] MC_Report/{name}: {s["records"]} behaviours, {s["counters"].get("executions", 0)} executions, '
+        f'{s["findings"]} deviations')
+    _family_cache[key] = r
+    return r
+
+
+def calendar_family():
+    key = 'calendar'
+    if key in _family_cache:
+        return _family_cache[key]
+    m = tlc('MC_Calendar', os.path.join('cfg', 'MC_Calendar.cfg'), workers=8, timeout=3000)
+    log(f'[tlc] MC_Calendar: {m["states"]} distinct states ({"cached" if m["cached"] else str(m["wall_s"]) + "s"})')
+    wd = workdir('calendar')
+    out = os.path.join(wd, 'findings.ndjson')
+    s = harness('replay_calendar', ['--in', m['out'], '--out', out])
+    r = {'name': key, 'tlc': m, 'summary': s, 'findings': read_ndjson(out), 'obs': None}
+    log(f'[replay] MC_Calendar: {s["records"]} dates, {s["counters"].get("executions", 0)} executions, {s["findings"]} deviations')
+    _family_cache[key] = r
+    return r
